@@ -96,6 +96,17 @@ def expr_text(e):
 
 
 # ------------------------------------------------------------------ the run
+class _MyAssertion(AssertionError):
+    pass
+
+
+class _MyError(Exception):
+    pass
+
+
+_ERRORS = [RuntimeError, NotImplementedError, ValueError, KeyError, _MyError, ZeroDivisionError, StopIteration]
+
+
 class _LogList(list):
     def __init__(self, log):
         super().__init__()
@@ -112,7 +123,7 @@ def run_program(prog, extra_formatters=None, reporters=None, config_hook=None, w
     from behave.step_registry import StepRegistry
     from behave.parser import parse_feature
     from behave.formatter.base import Formatter
-    from behave.exception import StepNotImplementedError
+    from behave.exception import StepNotImplementedError, PendingStepError
     from behave.model import ScenarioOutline, Scenario
     from behave.tag_expression import make_tag_expression
     import behave.model as bmodel
@@ -131,10 +142,15 @@ def run_program(prog, extra_formatters=None, reporters=None, config_hook=None, w
             sc = str(context.scenario.name)
             log.append(["step", kind, n, sc, "wip" in context.scenario.effective_tags])
             if kind == "fail":
+                if n % 2:
+                    raise _MyAssertion("step %d fails" % n)
                 assert False, "step %d fails" % n
             if kind == "error":
-                raise RuntimeError("step %d raises" % n)
+                # "other exception -> error": vary the exception class by step id
+                raise _ERRORS[n % len(_ERRORS)]("step %d raises" % n)
             if kind == "pending":
+                if n % 2:
+                    raise PendingStepError("step %d pending" % n)
                 raise StepNotImplementedError("step %d pending" % n)
             if kind == "skip":
                 context.scenario.skip()
@@ -226,9 +242,15 @@ def run_program(prog, extra_formatters=None, reporters=None, config_hook=None, w
     if cfg.get("stop"):
         args.append("--stop")
     args.append("--show-skipped" if cfg.get("show_skipped") else "--no-skipped")
-    et = expr_text(cfg.get("expr"))
-    if et is not None:
-        args += ["--tags", et]
+    ex = cfg.get("expr")
+    if ex is not None and ex[0] == "raw":
+        # ["raw", [--tags arguments as written], semantic AST]: both dialects, wildcards
+        for a in ex[1]:
+            args += ["--tags=" + a]
+    else:
+        et = expr_text(ex)
+        if et is not None:
+            args += ["--tags", et]
     for a in cfg.get("args", []):
         args.append(a)
     sink = io.StringIO()
